@@ -74,12 +74,16 @@ var plans = map[string][]batch{
 		{Driver: "C03", Build: "plain", Quick: 1200, Thor: 30000}, {Driver: "C06", Build: "plain", Quick: 2000, Thor: 50000},
 		{Driver: "C14", Build: "plain", Quick: 1200, Thor: 30000}, {Driver: "C15", Build: "plain", Quick: 2000, Thor: 50000},
 		{Driver: "C16", Build: "plain", Quick: 2000, Thor: 50000}, {Driver: "C12", Build: "plain", Quick: 4000, Thor: 100000},
-		{Driver: "C13", Build: "plain", Quick: 1500, Thor: 40000}, {Driver: "C19", Build: "plain", Quick: 2000, Thor: 50000}},
+		{Driver: "C13", Build: "plain", Quick: 1500, Thor: 40000}, {Driver: "C19", Build: "plain", Quick: 2000, Thor: 50000},
+		{Driver: "C13cold", Build: "plain", Quick: 1000, Thor: 20000, ProcsQuick: 1000, ProcsThor: 20000}},
 	"C12": {{Driver: "C12", Build: "plain", Quick: 300000, Thor: 6000000}},
 	"C15": {{Driver: "C15", Build: "plain", Quick: 30000, Thor: 800000}},
 	"C16": {{Driver: "C16", Build: "plain", Quick: 80000, Thor: 2000000},
 		{Driver: "C16", Build: "plain", Quick: 40000, Thor: 1000000, Env: []string{"JSONSCHEMAGODEBUG=typeschemasnull=1"}}},
-	"C13": {{Driver: "C13", Build: "plain", Quick: 12000, Thor: 400000}, {Driver: "C13", Build: "race", Quick: 2400, Thor: 80000, ProcsQuick: 64, ProcsThor: 512}},
+	"C13": {{Driver: "C13", Build: "plain", Quick: 12000, Thor: 400000}, {Driver: "C13", Build: "race", Quick: 2400, Thor: 80000, ProcsQuick: 64, ProcsThor: 512},
+		// process restarts: ONE run per operating-system process, so that the first calls into the library are concurrent
+		{Driver: "C13cold", Build: "plain", Quick: 3000, Thor: 40000, ProcsQuick: 3000, ProcsThor: 40000},
+		{Driver: "C13cold", Build: "race", Quick: 400, Thor: 6000, ProcsQuick: 400, ProcsThor: 6000}},
 	"C14": {{Driver: "C14", Build: "plain", Quick: 6000, Thor: 240000}, {Driver: "C19", Build: "plain", Quick: 3000, Thor: 100000},
 		{Driver: "C15", Build: "plain", Quick: 1500, Thor: 50000}, {Driver: "C12", Build: "plain", Quick: 40000, Thor: 1000000}},
 	"C19": {{Driver: "C19", Build: "plain", Quick: 30000, Thor: 800000}},
